@@ -83,6 +83,14 @@ theorem prepare_order_tie :
     C09.indexPrepareFlushCalls = ["metricInverted.prepareFlush", "forward.prepareFlush", "inverted.prepareFlush", "series.PrepareFlush"] := by
   decide
 
+/-- the four `PrepareFlush` functions of package index have the same test: either all of them also
+swap an EMPTY immutable map (`immutable == nil || immutable.IsEmpty()`, lindb commit a4b424c) or none
+does (`immutable == nil`: an empty immutable map then stays for ever). `Cfg.prepareSwapsEmpty`, and with
+it the model's `prepareFlushE`, follows this fact; the theorems hold for both shapes. -/
+theorem prepare_shape_tie :
+    let l := [C09.kvPrepareFlushCalls, C09.schemaPrepareFlushCalls, C09.invertedPrepareFlushCalls, C09.forwardPrepareFlushCalls]
+    l.all (·.contains "immutable.IsEmpty") = true ∨ l.all (fun c => !c.contains "immutable.IsEmpty") = true := by decide
+
 /-- `Sequence.Close` and `metricMetaDatabase.Close` do not write the counters: reopen = recover from
 what the last Sync (or, in the write-through repair, the last allocation) left in the mmap page -/
 theorem close_does_not_sync_tie :
